@@ -160,6 +160,16 @@ CLAIMED = {
              "histories (all 16 switch subsets, in/out-of-workspace requests, both FK solvers, reverse FK, move, re-spin, "
              "queries) must satisfy the spec's event predicate. Exhaustive on the protocol model, randomised on the code.",
         note="TLC; constraint truths recomputed by the harness from public getters; coherence at 1e-9"),
+    "C18": dict(
+        level="model_checking", design="3/C18",
+        technique="TLA+ spec Helpers.tla over QSE3.tla: TLC checks the mirror lemmas (involution, fixes the plane, negates only "
+                  "local z) for rotated off-origin frames, plane-contains-points and path laws exactly and exports exact mirror "
+                  "images compared with fsr.mirror; every helper x argument form over the quantifier's domain as a law trace "
+                  "with coverage obligations decided by TLC (LawTrace.tla)",
+        text="Exact oracle from TLC where the relation is algebraic (mirror, plane, path); RefEval residuals for midpoints, "
+             "lookAt, distances, gap closing, twists, Jacobians, sphere samplers and all angle-wrapping variants, with TLC "
+             "deciding thresholds and that every helper/form was exercised.",
+        note="TLC exact arithmetic; RefEval oracles (geodesic midpoint, se(3) exponential); 1e-8 / 1e-5 tolerances as stated"),
 }
 
 NOT_YET = "check not built yet in this round (planned: see DESIGN.md section 3)"
